@@ -69,6 +69,8 @@ package absnfs
 //@ func NFSProcedureHandler.handleLookup
 //@ prop C08
 //@ partial
+// C07: the only path looked up is the handle's path joined with one validated component
+//@ callassert AbsfsNFS.Lookup : [backend-path] {C07} arg1 == joined(node.path, name) && validComp(name)
 //@ ensures [never-mutates] mutlog == old(mutlog)
 //@ func NFSProcedureHandler.handleReadlink
 //@ prop C08
@@ -111,26 +113,40 @@ package absnfs
 //@ func NFSProcedureHandler.handleCreate
 //@ prop C08
 //@ partial
+//@ callassert AbsfsNFS.Create : [backend-path] {C07} arg1 == node && arg2 == name && validComp(name)
+//@ callassert AbsfsNFS.Lookup : [backend-path] {C07} arg1 == joined(node.path, name) && validComp(name)
 //@ ensures [ro-refused] old(curPolicy(h.server.handler).ReadOnly) ==> result0 == reply && replyIsBytes(reply) && replyStatus(reply) == 30
 //@ func NFSProcedureHandler.handleMkdir
 //@ prop C08
 //@ partial
+//@ callassert absfs.FS.Mkdir : [backend-path] {C07} arg1 == joined(node.path, name) && validComp(name)
+//@ callassert absfs.FS.Chown : [backend-path] {C07} arg1 == joined(node.path, name) && validComp(name)
+//@ callassert AbsfsNFS.Lookup : [backend-path] {C07} arg1 == joined(node.path, name) && validComp(name)
 //@ ensures [ro-refused] old(curPolicy(h.server.handler).ReadOnly) ==> result0 == reply && replyIsBytes(reply) && replyStatus(reply) == 30
 //@ func NFSProcedureHandler.handleSymlink
 //@ prop C08
 //@ partial
+// C07: the link is created under a validated name, with a relative target free of '..' components
+//@ callassert AbsfsNFS.Symlink : [backend-path] {C07} arg1 == node && arg2 == name && validComp(name)
+//@ callassert AbsfsNFS.Symlink : [target-contained] {C07} arg3 == target && !absTarget(target) && !dotdotComp(target)
+//@ callassert absfs.FS.Lchown : [backend-path] {C07} arg1 == joined(node.path, name) && validComp(name)
+//@ loop 1 invariant {C07} 0 <= rangeindex + 1 && rangeindex + 1 <= len(ranged) && forall(j, 0, rangeindex + 1, ranged[j] != "..")
 //@ ensures [ro-refused] old(curPolicy(h.server.handler).ReadOnly) ==> result0 == reply && replyIsBytes(reply) && replyStatus(reply) == 30
 //@ func NFSProcedureHandler.handleRemove
 //@ prop C08
 //@ partial
+//@ callassert AbsfsNFS.Remove : [backend-path] {C07} arg1 == node && arg2 == name && validComp(name)
 //@ ensures [ro-refused] old(curPolicy(h.server.handler).ReadOnly) ==> result0 == reply && replyIsBytes(reply) && replyStatus(reply) == 30
 //@ func NFSProcedureHandler.handleRmdir
 //@ prop C08
 //@ partial
+//@ callassert absfs.FS.Stat : [backend-path] {C07} arg1 == joined(node.path, name) && validComp(name)
+//@ callassert absfs.FS.Remove : [backend-path] {C07} arg1 == joined(node.path, name) && validComp(name)
 //@ ensures [ro-refused] old(curPolicy(h.server.handler).ReadOnly) ==> result0 == reply && replyIsBytes(reply) && replyStatus(reply) == 30
 //@ func NFSProcedureHandler.handleRename
 //@ prop C08
 //@ partial
+//@ callassert AbsfsNFS.Rename : [backend-path] {C07} arg1 == srcDir && arg2 == srcName && arg3 == dstDir && arg4 == dstName && validComp(srcName) && validComp(dstName)
 //@ ensures [ro-refused] old(curPolicy(h.server.handler).ReadOnly) ==> result0 == reply && replyIsBytes(reply) && replyStatus(reply) == 30
 //@ func NFSProcedureHandler.handleCommit
 //@ prop C08
@@ -193,6 +209,10 @@ package absnfs
 //@ prop C08
 //@ partial
 //@ requires s != nil && curTuning(s) != nil && curPolicy(s) != nil
+// C07: the operation layer hands the backend nothing but sanitizePath's result
+//@ callassert absfs.FS.Create : [backend-path] {C07} arg1 == sanitized(dir.path, name)
+//@ callassert absfs.FS.Chmod : [backend-path] {C07} arg1 == sanitized(dir.path, name)
+//@ callassert absfs.FS.Remove : [backend-path] {C07} arg1 == sanitized(dir.path, name)
 //@ ensures [ro-refused] old(curPolicy(s).ReadOnly) ==> mutlog == old(mutlog) && !isnil(result1)
 //@ func AbsfsNFS.Create
 //@ prop C08
@@ -203,6 +223,7 @@ package absnfs
 //@ prop C08
 //@ partial
 //@ requires s != nil && curTuning(s) != nil && curPolicy(s) != nil
+//@ callassert absfs.FS.Remove : [backend-path] {C07} arg1 == sanitized(dir.path, name)
 //@ ensures [ro-refused] old(curPolicy(s).ReadOnly) ==> mutlog == old(mutlog) && !isnil(result)
 //@ func AbsfsNFS.Remove
 //@ prop C08
@@ -213,6 +234,7 @@ package absnfs
 //@ prop C08
 //@ partial
 //@ requires s != nil && curTuning(s) != nil && curPolicy(s) != nil
+//@ callassert absfs.FS.Rename : [backend-path] {C07} arg1 == sanitized(oldDir.path, oldName) && arg2 == sanitized(newDir.path, newName)
 //@ ensures [ro-refused] old(curPolicy(s).ReadOnly) ==> mutlog == old(mutlog) && !isnil(result)
 //@ func AbsfsNFS.Rename
 //@ prop C08
@@ -223,6 +245,7 @@ package absnfs
 //@ prop C08
 //@ partial
 //@ requires s != nil && curTuning(s) != nil && curPolicy(s) != nil
+//@ callassert absfs.FS.Symlink : [backend-path] {C07} arg1 == target && arg2 == sanitized(dir.path, name)
 //@ ensures [ro-refused] old(curPolicy(s).ReadOnly) ==> mutlog == old(mutlog) && !isnil(result1)
 
 // ---- lookups, attribute reads and link reads never modify the backend
@@ -241,6 +264,9 @@ package absnfs
 //@ partial
 //@ requires s != nil
 //@ ensures [never-mutates] mutlog == old(mutlog)
+// C07: READLINK never returns a relative target with a ".." component
+//@ ensures [no-relative-dotdot] {C07} isnil(result1) ==> absTarget(result0) || !dotdotComp(result0)
+//@ loop 1 invariant {C07} 0 <= rangeindex + 1 && rangeindex + 1 <= len(ranged) && forall(j, 0, rangeindex + 1, ranged[j] != "..")
 
 // ---- the MOUNT program never modifies the backend
 //@ func NFSProcedureHandler.handleMountCall
